@@ -447,7 +447,7 @@ void prop(Src& s, Ctx& ctx) {
     unsigned nseg = 1 + (unsigned)s.range(0, MAXSEG - 1);
     // one history in 64: thousands of one-byte segments arriving every other one first, so that far more than a thousand
     // SACKed islands exist at the same time before the holes are filled in order
-    const bool many_islands = (profile & 0xfc) == 0xfc && (misc & 0x0f) == 0x0f && mode == 0;   // 1 in 1024, AckTracker driven directly
+    const bool many_islands = (profile & 0xfc) == 0xfc && (misc & 0x0f) == 0x0f && mode == 0 && (ctx.tier || (misc & 0x30) == 0x30);   // 1 in 1024 (quick tier: 1 in 4096), AckTracker driven directly
     if (many_islands) { nseg = 2100 + 2 * (unsigned)(misc & 0x7f); nev = nseg; }
     const bool long_lived = !many_islands && (profile & 0xf0) == 0xe0;   // one history in 16: every 'large' segment is a giant one
     std::vector<uint32_t> sizes(nseg);
